@@ -193,16 +193,18 @@ End Stack.
 Theorem okb_spec (c : case) :
   C09.okb c = true <->
   (forall r, In r (c_rows c) -> r_tree r <> None)
-  /\ (forall o n, In (o, n) (c_keep c) ->
+  /\ (out_of_statement c = false ->
+      forall o n, In (o, n) (c_keep c) ->
         let t := ext_table c (length (c_rows c)) in
         tab_tree t (N.to_nat n) = tab_tree t (N.to_nat o)).
 Proof.
-  unfold C09.okb. rewrite Bool.andb_true_iff, !forallb_forall. split.
+  unfold C09.okb. rewrite Bool.andb_true_iff, Bool.orb_true_iff, !forallb_forall. split.
   - intros [A B]. split.
     + intros r Hr. specialize (A r Hr). destruct (r_tree r); congruence.
-    + intros o n Hin. specialize (B (o, n) Hin). unfold kept_ok in B. cbn [fst snd] in B.
-      now apply trees_eqb_spec.
+    + intros Hs o n Hin. destruct B as [B|B]; [congruence|]. specialize (B (o, n) Hin).
+      unfold kept_ok in B. cbn [fst snd] in B. now apply trees_eqb_spec.
   - intros [A B]. split.
     + intros r Hr. specialize (A r Hr). destruct (r_tree r); congruence.
-    + intros [o n] Hin. unfold kept_ok. cbn [fst snd]. apply trees_eqb_spec. now apply B.
+    + destruct (out_of_statement c); [now left|right]. intros [o n] Hin. unfold kept_ok. cbn [fst snd].
+      apply trees_eqb_spec. now apply B.
 Qed.
